@@ -112,7 +112,7 @@ class Text(Part):
                 st.builds(lambda s: ["lit", s], lits),
                 st.builds(lambda s: ["lit", s], lits),
                 st.builds(lambda e: ["expr", e],
-                          pyexprs.exprs(exclude=("amp_entity",))),
+                          pyexprs.exprs(exclude=("amp_entity", "nonlatin"))),
             )
             parts = draw(st.lists(part, min_size=1, max_size=n))
             if draw(st.integers(0, 3)) == 0:
@@ -124,7 +124,7 @@ class Text(Part):
             if draw(st.integers(0, 5)) == 0:
                 tw = draw(pyexprs.twins())
                 parts += [["expr", draw(pyexprs.exprs(
-                    exclude=("amp_entity",)))], ["lit", " "],
+                    exclude=("amp_entity", "nonlatin")))], ["lit", " "],
                     ["expr", tw[0]], ["lit", "|"], ["expr", tw[1]]]
             # escaped interpolations ($${...} is the text ${...}) at the
             # very start and directly behind an interpolation
